@@ -38,7 +38,7 @@ _REQ = ([f"pert:{p}" for p in PERTS] +
         ["entry:AggregateVerify:basic", "entry:AggregateVerify:aug", "entry:AggregateVerify:pop",
          "entry:FastAggregateVerify", "entry:Aggregate", "want:True", "want:False", "repeated_key", "repeated_msg", "aggregate_verify:all_messages_equal",
          "zero_sum", "honest_aggregate_is_identity", "aggregate:wrong_size", "aggregate:empty", "aggregate:regroup", "n>=4"])
-_AGG = ["aggregate:n>=7", "aggregate:entry:zero_component:y_re=0", "aggregate:entry:zero_component:y_im=0",
+_AGG = ["derived:basic", "derived:aug", "derived:pop", "aggregate:n>=7", "aggregate:entry:zero_component:y_re=0", "aggregate:entry:zero_component:y_im=0",
         "aggregate:entry:inverse_of_entry", "aggregate:entry:repeated_entry"]
 REQUIRED_LABELS = {"quick": _REQ + _AGG, "thorough": _REQ + ["n>=16"] + _AGG}
 
@@ -216,7 +216,46 @@ def o_aggregate(ctx, case):
     ctx.sample({k: (v if k != "sigs" or len(v) <= 3 else v[:3] + ["..."]) for k, v in case.items()}, "Aggregate")
 
 
-ORACLES = {"verify": o_verify, "aggregate": o_aggregate}
+def o_derived(ctx, case):
+    """Aggregate verification in a suite derived with an application tag: it must hash under ITS tag in every
+    entry point - accept the aggregate made under that tag, refuse the one made under the stock tag - and the
+    stock suite must do the converse."""
+    suite, idxs, tag = case["suite"], case["idxs"], unhx(case["tag"])
+    ctx.begin("derived", case)
+    S, A = sc.lib_suite(suite), sc.derived_suite(suite, tag)
+    if A is None:
+        ctx.label("derived:subclassing_refused")
+        return
+    sks = [KEY_POOL[i % len(KEY_POOL)] for i in idxs]
+    if len(set(sks)) != len(sks):
+        sks = [5 + 3 * j for j in range(len(idxs))]
+    pks = [pk_of(k) for k in sks]
+    msgs = [MSG_POOL[(i + 3 * j) % len(MSG_POOL)] + b"#%d" % j for j, i in enumerate(idxs)]
+
+    def agg(t, ms):
+        return B.signature_bytes(blssig.aggregate_points(
+            [blssig.core_sign_point(k, core_msg(suite, pk, m), t) for k, pk, m in zip(sks, pks, ms)]))
+    own, stock = agg(tag, msgs), agg(blssig.DST[suite], msgs)
+    calls = [("App.AggregateVerify(aggregate under the application tag)", lambda: A.AggregateVerify(pks, msgs, own), True),
+             ("App.AggregateVerify(aggregate under the stock tag)", lambda: A.AggregateVerify(pks, msgs, stock), False),
+             ("stock AggregateVerify(aggregate under the application tag)", lambda: S.AggregateVerify(pks, msgs, own), False),
+             ("stock AggregateVerify(stock aggregate) after the derived suite was used", lambda: S.AggregateVerify(pks, msgs, stock), True)]
+    if suite == "pop":
+        one = [msgs[0]] * len(sks)
+        fown, fstock = agg(tag, one), agg(blssig.DST[suite], one)
+        calls += [("App.FastAggregateVerify(aggregate under the application tag)", lambda: A.FastAggregateVerify(pks, msgs[0], fown), True),
+                  ("App.FastAggregateVerify(aggregate under the stock tag)", lambda: A.FastAggregateVerify(pks, msgs[0], fstock), False),
+                  ("stock FastAggregateVerify(aggregate under the application tag)", lambda: S.FastAggregateVerify(pks, msgs[0], fown), False)]
+    for name, fn, exp in calls:
+        out = fn()
+        ctx.check(out is exp, "derived", "wrong_tag_used", case,
+                  f"{S.__name__} derived with DST={tag!r}, {len(sks)} signers: {name} = {out!r}, expected {exp}")
+    ctx.label(f"derived:{suite}")
+    ctx.nontrivial(("d", suite, tuple(idxs), case["tag"]))
+    ctx.sample(case, f"derived:{suite}")
+
+
+ORACLES = {"verify": o_verify, "aggregate": o_aggregate, "derived": o_derived}
 
 
 # ---- generator ---------------------------------------------------------------------------------------------
@@ -446,6 +485,13 @@ def t_aggregate(ctx, shard, n):
           shrink=False)
 
 
+def t_derived(ctx, shard, n):
+    strat = st.fixed_dictionaries({"suite": sc.s_suite(), "idxs": st.lists(st.integers(0, 40), min_size=2, max_size=3),
+                                   "tag": st.sampled_from(sc.APP_TAGS).map(hx)})
+    ex = [{"suite": sc.SUITES[shard % 3], "idxs": [shard, shard + 4], "tag": hx(sc.APP_TAGS[0])}]
+    drive(ctx, f"derived{shard}", strat, lambda c: o_derived(ctx, c), n, ex, shrink=False)
+
+
 def t_large(ctx, shard, n_signers):
     """thorough: large signer sets, honest and with one perturbation."""
     for k, pert in enumerate(("none", "drop_sig", "swap_keys", "key_non_subgroup")):
@@ -463,6 +509,7 @@ def tasks(tier):
     out = [Task(f"verify-{s}", "t_verify", shard=s, nshards=ns, n=11 if q else 260, nmax=6 if q else 12)
            for s in range(ns)]
     out += [Task(f"aggregate-{s}", "t_aggregate", shard=s, n=60 if q else 2500) for s in range(2)]
+    out += [Task(f"derived-{s}", "t_derived", shard=s, n=1 if q else 40) for s in range(3)]
     if not q:
         out += [Task(f"large-{s}", "t_large", shard=s, n_signers=[16, 24, 32, 20][s % 4]) for s in range(8)]
     return out
